@@ -23,7 +23,7 @@ RULE = ("grids of 1-12 combinations, repetitions 1-6 (>=2 for variance modes), a
         "seeded durations / ties / stalled workers); non-trivial = >=3 combinations with the optimum not at an end, or "
         "a tie for best, or |score| > sys.maxsize; distinct = (mode, combinations, repetitions, processes, best index, "
         "tie?, magnitude class, completion permutation)"
-        "; also: numpy integer scores, sibling ParameterList edited before the search, duplicate combinations handled in the oracle; real-pool arm changes program state between two parallel searches; rare switch for known finding F9, parameters named like the search code's own arguments (max_timesteps, model_cls, mode, ...), models with their own `timestep` attribute, every model stepped through exactly the timesteps up to its completion / the limit")
+        "; also: numpy integer scores, sibling ParameterList edited before the search, duplicate combinations handled in the oracle; real-pool arm changes program state between two parallel searches; rare switch for known finding F9, parameters named like the search code's own arguments (max_timesteps, model_cls, mode, ...), models with their own `timestep` attribute, models that run a batch of their own while being built, the model's running state as the score function sees it, every model stepped through exactly the timesteps up to its completion / the limit")
 COMPONENTS = {"real": ["ECAgent.Batching.grid_search", "_run_model_for_search", "_score_model_for_search", "ParameterList",
                        "statistics.mean/variance as called by the package", "ECAgent.Core.Model / SystemManager"],
               "stub": ["multiprocessing.Pool -> simkit.simpool.SimPool", "models and score function are harness workloads"]}
@@ -107,7 +107,7 @@ def generate(rng, tier):
     elif r < 0.6:
         scores = [list(scores[0]) for _ in range(size)]  # everything tied
     max_ts = rng.choice([None, None, rng.randint(0, 5)])
-    return {"shadow_timestep": shadow, "numpy_scores": style in ("small", "neg", "mid") and rng.random() < 0.3, "sibling": rng.random() < 0.15, "grid": grid, "via": rng.choice(["dict", "plist"]), "reps": reps, "mode": mode, "scores": scores,
+    return {"nested_batches": rng.random() < 0.08, "shadow_timestep": shadow, "numpy_scores": style in ("small", "neg", "mid") and rng.random() < 0.3, "sibling": rng.random() < 0.15, "grid": grid, "via": rng.choice(["dict", "plist"]), "reps": reps, "mode": mode, "scores": scores,
             "processes": rng.choice([2, 2, 3, 4, 8, 16, rng.randint(2, 16)]), "max_ts": max_ts,
             "base_stop": rng.randint(0, 4), "spread": rng.randint(1, 3), "pool": gen_pool(rng, size)}
 
@@ -155,7 +155,7 @@ def run_search(ctx, sc, processes, label):
         table.setdefault(s, sc["scores"][i % len(sc["scores"])])
     W.reset({"base_stop": sc["base_stop"], "spread": sc["spread"], "scores": table,
              "collectors_defined": [["col0", 1]], "numpy_scores": bool(sc.get("numpy_scores")),
-             "shadow_timestep": sc.get("shadow_timestep")})
+             "shadow_timestep": sc.get("shadow_timestep"), "nested_batches": sc.get("nested_batches")})
     if sc.get("shadow_timestep") is not None:
         ctx.probe("model_with_own_timestep_attribute")
     if any(n_ in W.SPECIAL_NAMES for n_ in names):
@@ -228,6 +228,10 @@ def check_outcome(ctx, sc, combos, sigs, table, val, ledger, label):
         lim = W.stop_at_of(e["sig"])
         reach = lim if sc["max_ts"] is None else min(lim, sc["max_ts"] - 1)
         seen = [t for n_, t, _ in e["ticks"] if n_ == "stopper"]
+        want_running = not (sc["max_ts"] is None or sc["max_ts"] > lim)
+        ctx.check(e.get("running_when_scored") == want_running, "model-state-when-scored",
+                  f"{label}: {e['sig']}: the score function saw is_running()={e.get('running_when_scored')}; the run ended "
+                  f"{'at the step limit, the model had not completed' if want_running else 'with the model completing itself'}")
         ctx.check(seen == list(range(0, reach + 1)), "stepping",
                   f"{label}: {e['sig']}: stepped through timesteps {seen}, expected 0..{reach}")
     return bi, exact
